@@ -36,3 +36,7 @@ pub use koto_memory::{Borrow, BorrowMut, KCell, Ptr, PtrMut, lazy, make_ptr, mak
 
 #[doc(hidden)]
 pub mod __private;
+
+#[cfg(feature = "koto_verif")]
+#[allow(missing_docs)]
+pub mod verif;
